@@ -170,6 +170,33 @@ Theorem C15_overlap_checker_decides :
 Proof. exact overlap_verdict_iff. Qed.
 Print Assumptions C15_overlap_checker_decides.
 
+(* ... and every log the one-fetcher MODEL produces is accepted: run the fetch machine together with a client whose
+   announces read the register at some instant between their start and end and are decided under the version read;
+   under every schedule of serve / install / rotate / start / read / end events the judge answers 0.  An alarm of the
+   overlap judge therefore always means behaviour the model of the code cannot show. *)
+Theorem C15_serial_model_logs_accepted :
+  forall cfg vs evs log assign,
+    forallb serial_ev evs = true ->
+    arun cfg vs (finit 0, None) evs = (log, assign, true) ->
+    G15.chk_overlap cfg vs log 0 0 0 0 0 = 0.
+Proof. exact serial_model_logs_accepted. Qed.
+Print Assumptions C15_serial_model_logs_accepted.
+
+(* not vacuous (a concrete serial run with five announces is accepted) and "one fetcher" is needed (a concrete run with a
+   refresh on demand: every verdict is the model's under the version read, and the judge answers 22) *)
+Theorem C15_serial_example_accepted :
+  forallb serial_ev ex_serial = true /\
+  (let '(log, assign, ok) := arun ex_cfg ex_vs (finit 0, None) ex_serial in
+   ok = true /\ assign = [0; 0; 0; 1; 1]%nat /\ G15.chk_overlap ex_cfg ex_vs log 0 0 0 0 0 = 0).
+Proof. exact serial_example_accepted. Qed.
+Print Assumptions C15_serial_example_accepted.
+
+Theorem C15_two_fetchers_log_rejected :
+  let '(log, assign, ok) := arun ex_cfg ex_vs (finit 0, None) ex_two in
+  ok = true /\ assign = [1; 0]%nat /\ G15.chk_overlap ex_cfg ex_vs log 0 0 0 0 0 = 22.
+Proof. exact two_fetchers_log_rejected. Qed.
+Print Assumptions C15_two_fetchers_log_rejected.
+
 (* F4: the pre-fix hook (jws.Verify only) accepts a token that is expired / not yet valid at `now` *)
 Theorem C15_jwt_legacy_ignores_exp_refuted :
   exists cfg keys now ih t e,
